@@ -786,6 +786,12 @@ _dispatch_source_invoke2(dispatch_source_t ds, dispatch_invoke_context_t dic,
 	}
 
 	if (_dispatch_unote_needs_delete(dr)) {
+		if (!dr->du_is_direct && !dr->du_is_timer && dq != dkq) {
+			// a muxed unote is unregistered on the kevent queue only: the
+			// event loop may still be delivering the event that asked for
+			// the deletion, and owns the muxnote lists
+			return dkq;
+		}
 		_dispatch_source_refs_unregister(ds, DUU_DELETE_ACK | DUU_MUST_SUCCEED);
 	}
 
